@@ -199,6 +199,25 @@ def transplant(B, gaps, C, atriv=None):
             # INSIDE the run annotated code that no longer exists (e.g. the error arm of a removed `?`) and go with it
             pending.extend(gaps[b0])
             dropped = sum(len(gaps[k]) for k in range(b0 + 1, b1))
+            # the dropped annotations must take their brackets with them: an annotation block opened inside the run and
+            # closed in front of the next kept token loses that closer too; a closer inside the run whose opener stands
+            # before the run stays
+            pair = {"}": "{", ")": "(", "]": "["}
+            opened = []
+            for k in range(b0 + 1, b1):
+                for t in gaps[k]:
+                    if t.kind == "punct" and t.text in ("{", "(", "["):
+                        opened.append(t.text)
+                    elif t.kind == "punct" and t.text in pair:
+                        if opened and opened[-1] == pair[t.text]:
+                            opened.pop()
+                        else:
+                            pending.append(t)
+            if opened and b1 < len(gaps):
+                g = list(gaps[b1])
+                while opened and g and g[0].kind == "punct" and g[0].text in pair and pair[g[0].text] == opened[-1]:
+                    g.pop(0); opened.pop()
+                gaps[b1] = g
             changes.append(("delete", b0, b1, c0, c1))
             if dropped:
                 changes.append(("dropped-annotations", b0 + 1, b1, c0, c1))
